@@ -456,7 +456,7 @@ func runServer(work, prop string) {
 func runServerC08(work string) {
 	e := newEnv("C08", "server", work)
 	defer e.finish()
-	scenarios := []string{"flags", "malformed", "bursts", "client-frames"}
+	scenarios := []string{"flags", "malformed", "bursts", "client-frames", "stream-abuse"}
 	for _, sc := range scenarios {
 		rounds := 1
 		if sc == "bursts" {
@@ -501,6 +501,17 @@ func (p *plainSvc) Do(req *[]byte, res *[]byte) error {
 	return nil
 }
 func (p *plainSvc) Fail(req *[]byte, res *[]byte) error { return errors.New("nope") }
+
+// Chat is a stream handler: it echoes until its stream ends.
+func (p *plainSvc) Chat(h *hStream) error {
+	for {
+		var m []byte
+		if err := h.s.ReadMessage(nil, &m); err != nil {
+			return nil
+		}
+		h.s.WriteMessage(&m)
+	}
+}
 
 // serve starts a server connection over an in-memory pipe and returns the client end
 func c08Serve(pipelining, directIO bool) (*pipeEnd, *rpc.Server, chan struct{}) {
@@ -548,6 +559,12 @@ func c08Probe(c *pipeEnd, seq uint64) error {
 	case <-deadline:
 		return errors.New("probe not answered within 5s")
 	}
+}
+
+func c08Probe2(pipelining, directIO bool) error {
+	c2, _, _ := c08Serve(pipelining, directIO)
+	defer c2.Close()
+	return c08Probe(c2, 77)
 }
 
 func c08Worker(work string) {
@@ -638,6 +655,58 @@ func c08Worker(work string) {
 		c2, _, _ := c08Serve(false, false)
 		if err := c08Probe(c2, 11); err != nil {
 			fmt.Println("FAIL after disconnect bursts a new connection does not serve a well-formed request:", err)
+		}
+	case "stream-abuse":
+		// stream control frames in every order over a small id space: opens on missing / non-stream /
+		// stream methods, messages and closes for ids that are open, failed, closed or unknown, the same
+		// id opened twice; then the peer disconnects and the teardown must complete
+		ups := []byte{0x08, 0x48, 0x88, 0xC8, 0x10, 0x50, 0x90, 0xD0, 0x18, 0x58, 0x98, 0xD8, 0x00, 0xE0}
+		methods := []string{"P.Nope", "P.Do", "P.Chat", "P.Chat", ""}
+		reps := 60
+		if e.thorough() {
+			reps = 600
+		}
+		for rep := 0; rep < reps; rep++ {
+			mode := [][2]bool{{false, false}, {true, false}, {false, true}, {true, true}}[rep%4]
+			c, _, done := c08Serve(mode[0], mode[1])
+			go func() { // drain whatever the server answers
+				for {
+					if _, err := c.ReadMessage(nil); err != nil {
+						return
+					}
+				}
+			}()
+			n := 2 + e.Rng.Intn(24)
+			for i := 0; i < n; i++ {
+				id := uint64(1 + e.Rng.Intn(3))
+				up := ups[e.Rng.Intn(len(ups))]
+				m := methods[e.Rng.Intn(len(methods))]
+				if rep < 12 { // the plain sequences first: failed open, then close / message / disconnect
+					id = 1
+					up = []byte{0xC8, 0xD8, 0xD0, 0xC8}[(i+rep)%4]
+					m = methods[rep%len(methods)]
+				}
+				c.WriteMessage(refPBReq(hdr{Seq: id, Upgrade: []byte{up}, Method: []byte(m), Body: []byte{byte(i)}}))
+				if e.Rng.Intn(3) == 0 {
+					time.Sleep(200 * time.Microsecond)
+				}
+			}
+			if rep%2 == 0 {
+				if err := c08Probe2(mode[0], mode[1]); err != nil {
+					fmt.Println("FAIL during stream control abuse a second connection does not serve a well-formed request:", err)
+				}
+			}
+			time.Sleep(time.Millisecond)
+			c.Close()
+			select {
+			case <-done:
+			case <-time.After(10 * time.Second):
+				fmt.Println("FAIL ServeCodec did not return within 10s after stream control frames and a disconnect")
+			}
+			fmt.Println("CASE stream-abuse", n)
+		}
+		if err := c08Probe2(false, false); err != nil {
+			fmt.Println("FAIL after stream control abuse a new connection does not serve a well-formed request:", err)
 		}
 	case "client-frames":
 		// malformed and unsolicited frames delivered to a client connection
